@@ -98,10 +98,20 @@ def rule_sites(ctx, rule="C12-sites"):
         seen, leaves, users, parent = cg.reach([m], follow=lambda e: e.target != "repr::Repr::reserve")
         heap = [s for s in seen if s.startswith("repr::heap_buffer::HeapBuffer::") and cg.may_allocate(s)]
         ctx.ob(rule, m, "growth-via-reserve", not heap, how="allocation reachable only through Repr::reserve", detail="%s reaches %s around reserve" % (m, heap[:3]))
+    rule_reserve_amount(ctx, rule)
+
+
+def rule_reserve_amount(ctx, rule="C12-sites"):
+    F = ctx.F
+    for m in ("repr::Repr::push_str", "repr::Repr::insert_str"):
+        b = F.bodies.get(m)
+        if not b:
+            continue
         rs = [bb for bb, t in b.calls() if callee_name(t) == "repr::Repr::reserve"]
+        ctx.need(rule, m, "calls-reserve", len(rs) >= 1, "%s does not call reserve" % m, how="%d reserve call(s)" % len(rs))
         for bb in rs:
             a = describe(b, b.origin_operand(b.term(bb)["args"][1]))
-            ctx.ob(rule, m, "reserve(len(string))", a in ("core::str::<impl str>::len(p2)", "core::str::<impl str>::len(p3)"), how="reserve(string.len())", detail="%s reserves %s" % (m, a))
+            ctx.ob(rule, m, "reserve(len(string))", a in ("core::str::<impl str>::len(p2)", "core::str::<impl str>::len(p3)"), how="reserve(string.len()): exactly the bytes added", detail="%s reserves %s instead of the length of the inserted text" % (m, a))
 
 
 def _ord(b, bb):
